@@ -1,4 +1,5 @@
 import Snel.Lemmas.ShardFresh
+import Snel.Lemmas.ShardSpan
 /-!
 # C11 — published segments are immutable and appear or disappear as a whole
 
@@ -79,6 +80,32 @@ per-label caches inside one process do not, see finding C05-stale-cache-on-segme
 theorem C11_l0_id_reused_after_compaction_and_restart :
     (restart (crash { (Shard.init 2 2) with segs := [(10000, [⟨1,0,0⟩])], nextL0 := 7 })).nextL0 = 0 := by
   decide
+
+/-- The side condition of `C11_flush_creates_fresh_directory_partial` is not an artefact: without
+it the statement is FALSE of the code as modelled. Every rotation consumes a level-0 id — also the
+rotation of an empty memtable by a manual FLUSH — and nothing bounds the counter by the level
+span. Witness, for the real id layout (`levelSpan = 10000`): two flushed segments are compacted
+into directory 10000; after 9998 further FLUSH commands in the same process lifetime the counter
+stands at 10000, and the next flush job is queued under the id of the existing compaction output.
+Replayed on the real engine, where the flush then overwrites that directory and the four
+compacted events are lost (finding C11-l0-counter-runs-into-l1-range). -/
+theorem C11_l0_range_overflow_fails :
+    let s1 := compactRound (runOps (Shard.init 2 2)
+      [.store ⟨1,0,0⟩, .store ⟨2,0,0⟩, .drain, .store ⟨3,0,0⟩, .store ⟨4,0,0⟩, .drain])
+    let s := runOps (runOps s1 (List.replicate 9998 Op.flushCmd)) [.store ⟨5,0,0⟩, .store ⟨6,0,0⟩]
+    ∃ j ∈ s.jobs, j.step = 0 ∧ j.seg = 10000 ∧ ∃ p ∈ s.segs, p.1 = j.seg := by
+  intro s1
+  have hidle : Idle s1 := ⟨by decide, by decide⟩
+  have hn1 : s1.nextL0 = 2 := by decide
+  have hc1 : s1.cap = 2 := by decide
+  have hs1 : s1.segs.map (·.1) = [10000] := by decide
+  obtain ⟨hj, hsg⟩ := idle_flushes_then_stores s1 hidle hc1 9998 ⟨5,0,0⟩ ⟨6,0,0⟩
+  simp only
+  rw [hj, hsg, hn1]
+  refine ⟨⟨10000, [⟨5,0,0⟩, ⟨6,0,0⟩], 0⟩, by simp, rfl, rfl, ?_⟩
+  have hmem : (10000 : Nat) ∈ s1.segs.map (·.1) := by rw [hs1]; simp
+  obtain ⟨p, hp, hpe⟩ := List.mem_map.mp hmem
+  exact ⟨p, hp, hpe⟩
 
 /-- Non-vacuity: a history with a crash in the middle of a flush and a restart. -/
 example :
